@@ -339,9 +339,11 @@ class RegistryMachine(RuleBasedStateMachine):
     @rule(data=st.data())
     def build_with_references(self, data):
         from props import c16
-        sp, fault = data.draw(c16.cases())
-        if fault is None:
-            self.do(["build", sp])
+        sp, fault = data.draw(c16.cases().filter(
+            lambda c: c[1] is None and any(x["n"] == "references" for _, x in treegen.spec_nodes(c[0]))))
+        self.do(["build", sp])
+        if data.draw(st.booleans()):
+            self.do(["expand", len(self.e.roots) - 1])
 
     @rule(p=st.integers(0, 300), k=st.integers(0, 10), delete=st.booleans())
     def replace(self, p, k, delete):
